@@ -45,6 +45,10 @@ func (s *Sim) result(prop string, run int, seed int64, steps int) *RunResult {
 			res.Answered++
 		}
 		kind := q.Spec.Kind
+		if q.FrontOnly {
+			res.Statuses[kind+"/refused-by-front-end"]++
+			continue
+		}
 		res.Statuses[fmt.Sprintf("%s/%d", kind, q.Status())]++
 	}
 	faults := 0
@@ -67,6 +71,9 @@ func (s *Sim) eventHash() string {
 	h := sha256.New()
 	for _, q := range s.Reqs {
 		fmt.Fprintf(h, "req %d %s %d %d %d %d|", q.Idx, q.Spec.Kind, q.InvokeEv, q.RespEv, q.TResp, q.Status())
+		if q.Front != nil && q.Front.rendered != nil {
+			fmt.Fprintf(h, "%s|", q.Front.rendered.summary())
+		}
 		if q.Res != nil {
 			fmt.Fprintf(h, "%s|", q.Res.String())
 		}
